@@ -10,7 +10,9 @@ META = dict(
          "followed by every token (every token pair in thorough); the same commands without frame/framer/house context; "
          "(3) every single-token delete / duplicate / replace mutation of every line of example plans (3 plans quick, all 33 "
          "thorough); (4) every in/under link assignment over 3 frames (4 in thorough) including self, cyclic and dangling "
-         "links, and every first/next assignment. Every build runs under a wall-clock watchdog (a time-out is re-run with a long "
+         "links, and every first/next assignment; (5) every directed graph of clone edges (`aux X as mine`, `aux X as tag`, "
+         "`rear X as mine be aux in frame b`) over <= 3 moot framers (4 in thorough) incl. self-loops and cycles, reached "
+         "from one active framer. Every build runs under a wall-clock watchdog (a time-out is re-run with a long "
          "limit before it counts). Accepted outcomes: success, Builder.build returning False, ParseError, ResolveError, other "
          "ioflo.base.excepting classes, ValueError from a Convert2* converter or from an explicit `raise ValueError` in ioflo. "
          "Anything else (TypeError, NameError, AttributeError, KeyError, IndexError, other ValueError, non-termination) is a violation.",
@@ -89,6 +91,14 @@ def items():
             out.append(("links", mu, nn, False, qf, s, nshard))
     out.append(("firstnext", "", 2, False, 0, 0, 1))
     out.append(("firstnext", "", 3, False, 0, 0, 1))
+    # clone graphs: (moot framers, edge kinds, root variants, flag, shards)
+    clones = [(1, ("mine", "tag", "rear"), ("first",), 0, 1), (2, ("mine", "tag", "rear"), ("first", "all"), 0, 2),
+              (3, ("mine",), ("first", "all"), 0, 2), (3, ("mine", "tag"), ("all",), 0, 32)]
+    if thorough:
+        clones += [(3, ("mine", "tag", "rear"), ("first", "all"), 1, 128), (4, ("mine",), ("first", "all"), 1, 64)]
+    for n, kinds, roots, qf, nshard in clones:
+        for s in range(nshard):
+            out.append(("clones", (kinds, roots), n, False, qf, s, nshard))
     return out
 
 
@@ -202,6 +212,12 @@ def work(item):
         n = item[2]
         for label, text in scripts.gen_first_next_graphs(n):
             J.judge((0, 6, n, len(label), label), label, text)
+    elif kind == "clones":
+        _, (kinds, roots), n, _, qflag, shard, nshards = item
+        for i, (label, text) in enumerate(scripts.gen_clone_graphs(n, kinds, roots)):
+            if i % nshards != shard:
+                continue
+            J.judge((qflag, 7, n, len(kinds), len(label), label), label, text)
     J.p.extra["found"] = J.found
     return J.p
 
@@ -249,10 +265,11 @@ def run():
     return ck.finish(
         rule="verb + all token sequences <= %d; single-token delete/replace/insert of %d valid commands and prefix+%d-token "
              "extensions; corpus without context; single-token mutations of %s example plans; all in/under graphs over <= %d "
-             "frames and first/next graphs; non-trivial = distinct script text"
+             "frames and first/next graphs; all clone-edge graphs (aux as mine / as tag / rear) over <= %d moot framers; "
+             "non-trivial = distinct script text"
              % (3 if core.TIER == "thorough" else 2, sum(len(v) for v in scripts.CORPUS.values()),
                 2 if core.TIER == "thorough" else 1, "all" if core.TIER == "thorough" else "3",
-                4 if core.TIER == "thorough" else 3),
+                4 if core.TIER == "thorough" else 3, 4 if core.TIER == "thorough" else 3),
         exhaustive=True)
 
 
